@@ -228,6 +228,42 @@ fn traced(t: &Tree, meth: &str, preset: &str, k: usize, iters: u64, seed: u64, y
     .and_then(|r| r)
 }
 
+/// one solve with a regret threshold, only the iteration ends recorded
+#[allow(clippy::type_complexity)]
+fn thresholded(t: &Tree, meth: &str, preset: &str, k: usize, iters: u64, thr: f64, seed: u64) -> Result<(Vec<[f64; 2]>, [Vec<f64>; 2], [f64; 2]), String> {
+    let t2 = t.clone();
+    let (meth, preset) = (meth.to_string(), preset.to_string());
+    util::catch(move || {
+        let game = tree::build(&t2).map_err(|e| format!("{e:?}"))?;
+        verif::reset();
+        verif::set_draw_seed(Some(seed));
+        verif::set_record(true, false);
+        let res = game.solve(cfr::method(&meth), iters, thr, k, Some(cfr::params(&param_set(&preset))));
+        let log = verif::take_log();
+        verif::reset();
+        let (strat, bound) = res.map_err(|e| format!("{e:?}"))?;
+        let its = log.iter().filter_map(|e| if let Event::IterEnd(_, b) = e { Some(*b) } else { None }).collect();
+        Ok((its, strat.verif_dense(), [bound.player_regret_bound(PlayerNum::One), bound.player_regret_bound(PlayerNum::Two)]))
+    })
+    .and_then(|r| r)
+}
+
+/// thresholds that separate the per-player bounds of the one-thread run: midpoints of consecutive distinct values
+/// of {bound of either player, total bound} over the iterations, kept at a relative distance of 1e-4 from each
+/// (several threads move a bound by rounding only).  These are the values at which a stop decision taken on anything
+/// but the two bounds of ONE completed iteration shows
+fn separating_thresholds(its: &[[f64; 2]], want: usize) -> Vec<f64> {
+    let mut vals: Vec<f64> = its.iter().flat_map(|b| [b[0], b[1]]).filter(|x| x.is_finite() && *x > 0.0).collect();
+    vals.sort_by(|a, b| a.partial_cmp(b).unwrap());
+    vals.dedup();
+    let mut mids: Vec<f64> = vals.windows(2).filter(|w| w[1] > w[0] * (1.0 + 1e-3)).map(|w| 0.5 * (w[0] + w[1])).collect();
+    // prefer thresholds at which the one-thread run stops strictly inside the budget
+    let stops = |r: f64| its.iter().position(|b| f64::max(b[0], b[1]) < r);
+    mids.retain(|r| stops(*r).map_or(false, |t| t + 1 < its.len() || t > 0));
+    let step = (mids.len() / want.max(1)).max(1);
+    mids.into_iter().step_by(step).take(want).collect()
+}
+
 fn max_diff(a: &[Vec<f64>; 2], b: &[Vec<f64>; 2]) -> f64 {
     let mut d: f64 = 0.0;
     for pl in 0..2 {
@@ -275,6 +311,39 @@ pub fn record(args: &Args) {
                 out.line(&base.0);
                 base.1.iter().for_each(|p| out.line(p));
                 passes_total += base.1.len();
+                // thresholded runs (the stop decision must be the one-thread one): a longer budget, thresholds that
+                // separate the players' bounds of the one-thread run, two thread counts
+                if iters == *budgets.last().unwrap() {
+                    let long = if thorough { 30 } else { 12 };
+                    if let Ok((its, _, _)) = thresholded(&tg, meth, preset, 1, long, 0.0, sd) {
+                        for thr in separating_thresholds(&its, if thorough { 8 } else { 3 }) {
+                            let one = match thresholded(&tg, meth, preset, 1, long, thr, sd) {
+                                Ok(x) => x,
+                                Err(_) => continue,
+                            };
+                            for &k in &[2usize, ks[(gi + mi) % ks.len()].max(3)] {
+                                match thresholded(&tg, meth, preset, k, long, thr, sd) {
+                                    Err(msg) => cmp.line(&json!({"status": "violation", "game": name, "method": meth, "k": k, "T": long, "r": thr,
+                                        "mismatch": [{"class": "panic", "what": "thresholded solve failed or panicked with several threads", "observed": msg}], "tree": tg})),
+                                    Ok((kits, dense, bounds)) => {
+                                        runs += 1;
+                                        let d = max_diff(&dense, &one.1);
+                                        let db = (0..2).map(|p| (bounds[p] - one.2[p]).abs() / one.2[p].abs().max(1.0)).fold(0.0, f64::max);
+                                        if kits.len() != one.0.len() || d > 1e-9 || db > 1e-9 || d.is_nan() || db.is_nan() {
+                                            cmp.line(&json!({"status": "violation", "game": name, "method": meth, "preset": preset, "k": k, "T": long, "r": thr,
+                                                "mismatch": [{"class": "threshold-differs", "what": "thresholded run with several threads differs from one thread",
+                                                    "iterations_one_thread": one.0.len(), "iterations_k_threads": kits.len(),
+                                                    "max_probability_difference": d, "max_bound_difference": db}], "tree": tg, "seed": sd}));
+                                        } else {
+                                            cmp.line(&json!({"status": "ok", "game": name, "method": meth, "k": k, "T": long, "r": thr,
+                                                "nontrivial": one.0.len() < long as usize}));
+                                        }
+                                    }
+                                }
+                            }
+                        }
+                    }
+                }
                 for &k in ks {
                     for rep in 0..reps {
                         let yields = if rep == 0 { 0 } else { seed.wrapping_add(rep as u64 * 977) | 1 };
